@@ -10,7 +10,7 @@
     `wf t`       non-normal nodes are leaves and no normal child precedes a non-normal one
   All theorems hold for every tree and every node, without bounds.
 -/
-import XotModel.Lemmas.AxesMisc
+import XotModel.Lemmas.Axes
 
 namespace XotModel.Props
 open XotModel XotModel.Axes
@@ -149,6 +149,13 @@ theorem C07_edges_previous {t : Tree} {p : Path} (hw : wf t = true) (h : Valid t
       edgeWalk (Edge.previous t) ((reverseTraverse t []).length + m) (.stop []) = reverseTraverse t []) :=
   ⟨edgeWalk_previous_eq hw h hn m, reverseTraverse_eq t p, rfl, fun h0 => edgeWalk_previous_root hw h0 m⟩
 
+/-- `traverse` / `all_traverse` (indextree's `traverse`, by contract the Start/End edge list of the
+    subtree): the nodes whose `Start` edge is yielded are `descendants` / `all_descendants`, in
+    the same order. Any tree, any node. -/
+theorem C07_traverse_starts (t : Tree) (p : Path) :
+    (traverse t p).filterMap Edge.start? = descendants t p ∧
+    (allTraverse t p).filterMap Edge.start? = allDescendants t p := traverse_starts t p
+
 /-- `level_order`: the levels below `p` (`p`; its children; their children; …) one after the
     other, with `End` before every node whose parent differs from that of the node before it
     and at the very end. Any tree, any start node; levels from the node count on are empty and
@@ -227,6 +234,15 @@ theorem C07_next_previous_sibling {t : Tree} {π : Path} {i : Nat} (hw : wf t = 
       (if i = 0 then none
        else if categoryAt t (π ++ [i - 1]) == categoryAt t (π ++ [i]) then some (π ++ [i - 1]) else none) :=
   ⟨(nextSibling_normal hw h hn).1, (nextSibling_normal hw h hn).2, previousSibling_snoc t π i⟩
+
+/-- Under the `StructValid` ordering of the children (namespaces, attributes, normal):
+    `next_sibling` / `previous_sibling` of ANY node, attribute and namespace nodes included, is
+    the nearest following / preceding sibling of the node's category. -/
+theorem C07_next_previous_sibling_any {t : Tree} {π : Path} {i : Nat} (h : Valid t (π ++ [i]))
+    (hs : kidsSorted (subAt t π).kids) :
+    nextSibling t (π ++ [i]) = (axis t .followingSibling (π ++ [i])).head? ∧
+    previousSibling t (π ++ [i]) = (axis t .precedingSibling (π ++ [i])).head? :=
+  ⟨nextSibling_sorted h hs, previousSibling_sorted h hs⟩
 
 /-- `child_index(parent, child) = Some(i)` iff `child` is the `i`-th of `children(parent)`;
     `None` when `parent` is not the parent of `child`. -/
